@@ -495,6 +495,12 @@ def g2AmclIsInf (cs : List RawFp) : Bool :=
   amclIsZero (cs.getD 0 ⟨1, 0⟩) && amclIsZero (cs.getD 1 ⟨1, 0⟩) &&
   amclIsZero (cs.getD 4 ⟨1, 0⟩) && amclIsZero (cs.getD 5 ⟨1, 0⟩)
 
+/-- what `ECP::inf` / `ECP2::inf` leave behind: `x = 0`, `y = 1` (Montgomery residue `Rm`, counter 2
+after `nres`), `z = 0`.  A decoded value that amcl's `is_infinity` recognises as the identity is
+normalised to this representation (any `(0 : y : 0)`, even `(0 : 0 : 0)`). -/
+def g1IdRaw : List RawFp := [⟨1, 0⟩, ⟨2, Rm⟩, ⟨1, 0⟩]
+def g2IdRaw : List RawFp := [⟨1, 0⟩, ⟨1, 0⟩, ⟨2, Rm⟩, ⟨1, 0⟩, ⟨1, 0⟩, ⟨1, 0⟩]
+
 /-- `PointG1::from_string` (`allowInf = false`) / `from_string_inf`: `pre_validate_point(3)`,
 `ECP::from_hex`, `is_valid_ecp` (projective curve equation only), then the infinity rule -/
 def implG1Text (allowInf : Bool) (s : List Char) : Res TextPt :=
@@ -504,7 +510,7 @@ def implG1Text (allowInf : Bool) (s : List Char) : Res TextPt :=
     let cs := cs0.map truncBig
     if !(cs.all inBigDomain) then .dep
     else if !(onCurveProj B1 (g1PtOfRaw cs)) then .err
-    else if !allowInf && g1AmclIsInf cs then .err
+    else if g1AmclIsInf cs then (if allowInf then .ok ⟨g1IdRaw⟩ else .err)
     else .ok ⟨cs⟩
 
 /-- amcl's `Fp2` squaring negates a component after reducing it only as far as its counter
@@ -522,7 +528,7 @@ def implG2Text (allowInf : Bool) (s : List Char) : Res TextPt :=
     let cs := cs0.map truncBig
     if !(cs.all inBigDomain) || !(g2Honest cs) then .dep
     else if !(onCurveProj B2 (g2PtOfRaw cs)) then .err
-    else if !allowInf && g2AmclIsInf cs then .err
+    else if g2AmclIsInf cs then (if allowInf then .ok ⟨g2IdRaw⟩ else .err)
     else .ok ⟨cs⟩
 
 /-- `−p⁻¹ mod 2^280` -/
